@@ -120,6 +120,16 @@ def _shard(args) -> Dict[str, Any]:
                             acc += 1
                         if v:
                             viol.append((v[0] + "/sweep", v[1], {"bytes": bytes(d).hex(), "addr": ADDR}))
+                # the same instruction followed by one that shares prefix/opcode but differs in its operand bytes
+                # (the decoder looks ahead at the follower): the round trip must still return the first one
+                first = bytes(base[:ln])
+                if ln > len(head) - 1:
+                    for flip in (0x01, 0x04, 0x21, 0xFF):
+                        fol = head[:-1] + bytes([b2 ^ flip]) + bytes(x ^ 0xA5 for x in first[len(head):]) + sweep_fill
+                        cls, v = judge(first + fol, ADDR, deep=False, callbacks=callbacks)
+                        sweep_ev += 1
+                        if v:
+                            viol.append((v[0] + "/same-opcode-follower", v[1], {"bytes": (first + fol).hex(), "addr": ADDR}))
                 if len(samples) < 2 and ln >= 4:
                     samples.append(f"sweep base={bytes(base).hex()} positions {len(head)}..{ln - 1} x 256 values")
     return {"ev": ev, "acc": acc, "sweep_ev": sweep_ev, "viol": viol, "samples": samples}
